@@ -1332,9 +1332,43 @@ class Config:  # pylint: disable=too-many-instance-attributes
                 except Exception as err:
                     raise ValidationError(self, field, err) from err
 
+                if virtual or sensitive_mask is not None:
+                    value = self._render_nested(
+                        field_value, value, virtual, sensitive_mask
+                    )
+
             tree[key] = value
 
         return tree
+
+    def _render_nested(
+        self, held: Any, basic: Any, virtual: bool, sensitive_mask: Optional[str]
+    ) -> Any:
+        """
+        Configurations held below nested lists or dicts (a list of lists of configurations, a dict
+        of lists of configurations) are rendered with the same options as this one.
+
+        :param held: the value as held by the configuration
+        :param basic: the basic value the field rendered for it
+        :returns: *basic* with every nested configuration rendered with the given options
+        """
+        if isinstance(held, Config):
+            return held.to_tree(virtual=virtual, sensitive_mask=sensitive_mask)
+        if (
+            isinstance(held, (list, tuple))
+            and isinstance(basic, list)
+            and len(held) == len(basic)
+        ):
+            return [
+                self._render_nested(item, rendered, virtual, sensitive_mask)
+                for item, rendered in zip(held, basic)
+            ]
+        if isinstance(held, dict) and isinstance(basic, dict) and len(held) == len(basic):
+            return {
+                key: self._render_nested(item, rendered, virtual, sensitive_mask)
+                for item, (key, rendered) in zip(held.values(), basic.items())
+            }
+        return basic
 
     def load_tree(self, tree: dict, validate: bool = True) -> None:
         """
